@@ -132,7 +132,9 @@ def run_unit(name, prop, canary=False, mutate=None, suffix=""):
         k = classify(msg)
         if k == "ignore":
             continue
-        prim = [s for s in d.get("spans", []) if s.get("is_primary")]
+        spans = [_resolve_span(sp_, path) for sp_ in d.get("spans", [])]
+        spans = [sp_ for sp_ in spans if sp_ is not None]
+        prim = [s for s in spans if s.get("is_primary")]
         if k is None or RLIMIT_MSG.search(msg):
             where = ""
             if prim:
@@ -148,23 +150,40 @@ def run_unit(name, prop, canary=False, mutate=None, suffix=""):
             f["loc"] = f"{ploc['file']}:{ploc['line']}"
         elif "tag" in ploc:
             f["loc"] = ploc["tag"].get("env") or ploc["tag"].get("where")
-        # clause span (secondary or primary)
+        # the clause: the span labelled "failed ..." if there is one, else the primary span when
+        # it lies in spliced/env text (invariants, assertions)
         ctag = None
-        for s in d.get("spans", []):
+        cands = [s for s in spans if (s.get("label") or "").startswith("failed")]
+        if not cands and k in ("invariant", "assert", "decreases"):
+            cands = prim
+        for s in cands:
             l = u.locate(s["byte_start"])
-            if "tag" in l and (l["tag"].get("clause") or l["tag"].get("label") is not None or l["tag"].get("env")):
-                if not s.get("is_primary") or ctag is None:
-                    ctag = l["tag"]
+            if "tag" in l:
+                ctag = l["tag"]
+                if f["fn"] is None:
+                    f["fn"] = l.get("fn")
+                break
+        # exit site of a failed postcondition ("at this exit" / "at the end of the function body")
+        for s in spans:
+            if (s.get("label") or "").startswith("at this exit"):
+                l = u.locate(s["byte_start"])
+                if "src" in l and l.get("fn"):
+                    f["exit_loc"] = f"{l['file']}:{l['line']}"
+                    f["site"] = u.site_lookup(l["fn"], l["byte"]) or {"exit": f"line-in-fn"}
                     if f["fn"] is None:
-                        f["fn"] = l.get("fn")
+                        f["fn"] = l["fn"]
+            elif (s.get("label") or "").startswith("at the end of the function body"):
+                f["site"] = {"exit": "end"}
         if ctag:
             f["clause"] = ctag.get("clause") or ctag.get("label")
             f["tags"] = ctag.get("tags")
             f["clause_where"] = ctag.get("where") or ctag.get("env")
             if ctag.get("sub"):
                 f["sub"] = ctag["sub"]
+            if f["fn"] is None and ctag.get("fn"):
+                f["fn"] = ctag["fn"]
         # site
-        if "src" in ploc and ploc.get("fn"):
+        if "src" in ploc and ploc.get("fn") and f["site"] is None:
             st = u.site_lookup(ploc["fn"], ploc["byte"])
             f["site"] = st
         f["name"] = obligation_name(u, f)
@@ -178,6 +197,23 @@ def run_unit(name, prop, canary=False, mutate=None, suffix=""):
     return out
 
 
+def _resolve_span(sp_, path):
+    """Follow macro expansions back to the call site in the assembled file."""
+    cur = sp_
+    base = os.path.basename(path)
+    for _ in range(8):
+        if cur is None:
+            return None
+        if os.path.basename(cur.get("file_name", "")) == base:
+            out = dict(cur)
+            out["is_primary"] = sp_.get("is_primary")
+            out["label"] = sp_.get("label")
+            return out
+        ex = cur.get("expansion")
+        cur = ex.get("span") if ex else None
+    return None
+
+
 def obligation_name(u, f):
     fn = f["fn"] or "<spec>"
     k = f["kind"]
@@ -187,7 +223,9 @@ def obligation_name(u, f):
         return base
     if k == "requires":
         site = f["site"]["call"] if f["site"] and f["site"].get("call") else "?"
-        return f"{u.name}::{fn}@{site}::requires#{f['clause'] or '?'}"
+        if f["clause"] is None:
+            return f"{u.name}::{fn}@{site}::panic-reachable"
+        return f"{u.name}::{fn}@{site}::requires#{f['clause']}"
     if k == "overflow":
         site = f["site"]["op"] if f["site"] and f["site"].get("op") else "?"
         return f"{u.name}::{fn}@{site}::overflow"
